@@ -2,7 +2,7 @@
    (Gen/C35Hashes.v, regenerated on every run).  A change of the source that alters one of these facts
    breaks a proof here, and with it Props/C35.v. *)
 From Coq Require Import String.
-From PlzV Require Import Base.Harness Base.StrFacts Model.C35 Proof.C35 Gen.C35Hashes.
+From PlzV Require Import Base.Harness Base.StrFacts Model.C35 Proof.C35 Proof.C35_Fg Gen.C35Hashes.
 
 Local Open Scope list_scope.
 
@@ -84,4 +84,52 @@ Proof.
     assert (after_last_colon (pre ++ [58%N; 32%N] ++ hex (checker_hash H a outs)) = Some (32%N :: hex (checker_hash H a outs))) as A.
     { apply after_last_colon_app. intros [E|I]; [discriminate|contradiction]. }
     rewrite A. exact T.
+Qed.
+
+(* ------------------------------------------------------------------------------------------ *)
+(* filegroups: the state comparison of buildFilegroup and the memo of filegroupBuilder are TRANSLATED from the
+   source; the model's `triggers`, `memo_hit`, `memo_store_same/_built` are what the source says *)
+
+Fixpoint gen_index (n : str) (l : list string) (i : nat) : option nat :=
+  match l with
+  | [] => None
+  | k :: r => if str_eqb (s k) n then Some i else gen_index n r (S i)
+  end.
+
+(* the value of core.<State> (position in the iota block of BuildTargetState) *)
+Definition gen_rank (t : tstate) : option nat := gen_index (tstate_name t) build_states 0.
+
+Definition all_tstates : list tstate := [TBuilt; TCached; TUnchanged; TReused].
+
+Lemma gen_state_triggers t :
+  exists r, gen_rank t = Some r /\ fg_src_state_triggers r = triggers t.
+Proof. destruct t; vm_compute; eexists; split; reflexivity. Qed.
+
+(* the states of the model are exactly the states a locally finished source target can be in: from Built up to
+   (excluding) the remote ones, in this order *)
+Lemma gen_local_states :
+  map gen_rank all_tstates = map Some (seq (match gen_rank TBuilt with Some r => r | None => 0 end) 4)
+  /\ gen_index (s "BuiltRemotely") build_states 0 = option_map S (gen_rank TReused).
+Proof. vm_compute. split; reflexivity. Qed.
+
+Lemma gen_memo :
+  (forall b, fg_memo_hit b = memo_hit b)
+  /\ fg_memo_store_same = Some memo_store_same /\ fg_memo_store_built = Some memo_store_built
+  /\ fg_memo_value_type = "bool"%string /\ fg_src_same_package_only = true.
+Proof. split; [intros []; reflexivity|]. vm_compute. repeat split. Qed.
+
+(* about the generated definitions themselves: a same-package source that was built or came out of the cache in
+   this invocation makes the filegroup count as changed, one that was left alone does not; and a file that a
+   first builder put in place is reported as changed to every later builder *)
+Theorem gen_fg_changed_semantics :
+  (forall t r, gen_rank t = Some r ->
+     fg_src_state_triggers r = true <-> (t = TBuilt \/ t = TCached))
+  /\ (forall first_verdict, fg_memo_store_built = Some first_verdict -> fg_memo_hit first_verdict = true)
+  /\ (forall first_verdict, fg_memo_store_same = Some first_verdict -> fg_memo_hit first_verdict = false).
+Proof.
+  split; [|split].
+  - intros t r E. destruct (gen_state_triggers t) as (r' & E' & T). rewrite E in E'. inversion E'; subst r'.
+    rewrite T. destruct t; cbn; split; intros X; try discriminate; auto; destruct X; discriminate.
+  - intros v E. rewrite (proj1 (proj2 (proj2 gen_memo))) in E. inversion E; subst. rewrite (proj1 gen_memo). reflexivity.
+  - intros v E. rewrite (proj1 (proj2 gen_memo)) in E. inversion E; subst. rewrite (proj1 gen_memo). reflexivity.
 Qed.
